@@ -114,6 +114,15 @@ def correspondence(ctx):
         term, _ = make_case(ctx, 1, 0, scripted=sc)
         cases.append(term)
         ctx.count('scripted')
+    rig0 = H.Rig()
+    try:
+        lim0 = H.limits(rig0)
+    finally:
+        rig0.close()
+    for key, tr in sorted(H.refused_prefix_traces(lim0).items()):
+        term, _ = make_case(ctx, 3, 0, scripted=[(None if l is None else l + '\r\n', dt) for l, dt in tr])
+        cases.append(term)
+        ctx.count('refused-prefix')
     for tr in pair_traces('GFR') + (pair_traces('SRP') if not ctx.quick() else []):
         term, _ = make_case(ctx, 2, 0, scripted=[(None if l is None else l + '\r\n', dt) for l, dt in tr])
         cases.append(term)
@@ -440,7 +449,13 @@ def oracle(ctx):
     import random
     checked = 0
     histories = 0
-    for tr in DIRECTED + pair_traces('GFR') + pair_traces('SRP'):
+    rig0 = H.Rig()
+    try:
+        lim0 = H.limits(rig0)
+    finally:
+        rig0.close()
+    for tr in DIRECTED + [v for _, v in sorted(H.refused_prefix_traces(lim0).items())] \
+            + pair_traces('GFR') + pair_traces('SRP'):
         w = run_trace(ctx, tr)
         checked += w.checked
         histories += 1
